@@ -72,11 +72,13 @@ func forcedCommitWindow(run *evid.Run, n int) {
 		type obs struct {
 			writeErr   error
 			commit2Err error
+			cancelErr  error
 			visible    bool // GetBlob(d) succeeded right after the write
 			inWindow   bool // both happened before the committer was released
 		}
 		var o obs
 		secondCommit := i%3 == 2
+		cancelInWindow := i%5 == 4 && !secondCommit
 		done := make(chan struct{})
 		var released atomic.Bool
 		ocimem.VerifSetYield(func(point string, b *ocimem.Buffer) {
@@ -87,6 +89,13 @@ func forcedCommitWindow(run *evid.Run, n int) {
 			// goroutine B performs the conflicting operations while the committer is parked here
 			go func() {
 				defer close(done)
+				if cancelInWindow {
+					// the session is cancelled while its commit is between the digest check and storing the
+					// blob: the commit may then succeed or fail, but a failed commit stores nothing at all
+					o.cancelErr = b.Cancel()
+					o.inWindow = !released.Load()
+					return
+				}
 				if secondCommit {
 					// a second Commit of the same session with the same (correct) digest, e.g. a retried
 					// final request: whenever it reports success the blob has to be there
@@ -132,6 +141,18 @@ func forcedCommitWindow(run *evid.Run, n int) {
 				run.Violation("forced/commit-window/second-commit-acknowledged-before-stored", "a second Commit of the same upload with the same digest reported success while the first was between its digest check and storing the blob, and ResolveBlob right after it did not find the blob", witness)
 			}
 		}
+		if cancelInWindow {
+			run.Count("forced_cancels_in_window", 1)
+			witness["cancel_error"] = fmt.Sprint(o.cancelErr)
+			if cerr != nil {
+				// also under the digest a zero descriptor carries: a lookup that failed inside the registry
+				// must not turn into an entry of its own
+				if rd, rerr := reg.ResolveBlob(bg, "r", ""); rerr == nil {
+					witness["resolved"] = fmt.Sprintf("%+v", rd)
+					run.Violation("forced/commit-window/cancelled-commit-left-a-blob", fmt.Sprintf("Cancel landed between the digest check and the commit callback; Commit failed (%v) but the repository now holds a blob under the empty digest: ResolveBlob(\"\") = %+v", cerr, rd), witness)
+				}
+			}
+		}
 		if cerr != nil {
 			// refusing the commit because of the interference would be acceptable; nothing may be stored then
 			if data, _, gerr := readAll(reg.GetBlob(bg, "r", ociregistry.Digest(d))); gerr == nil {
@@ -142,7 +163,7 @@ func forcedCommitWindow(run *evid.Run, n int) {
 		}
 		// atomicity: the late Write was accepted after the digest check (so the commit precedes it),
 		// yet the blob was not visible afterwards (so the commit follows it): no single point for Commit.
-		if !secondCommit && o.inWindow && o.writeErr == nil && !o.visible {
+		if !secondCommit && !cancelInWindow && o.inWindow && o.writeErr == nil && !o.visible {
 			run.Violation("forced/commit-window/commit-not-atomic", "a Write accepted between the digest check and the commit callback was followed by GetBlob not finding the blob, and Commit then succeeded: Commit has no single linearization point", witness)
 		}
 		data, gdesc, gerr := readAll(reg.GetBlob(bg, "r", ociregistry.Digest(d)))
